@@ -49,10 +49,10 @@ const (
 )
 
 type c43Item struct {
-	Kind    string `json:"kind"` // agent | cache | staging | link-* | unrelated | odd
-	Rel     string `json:"path"` // relative to the data directory
-	AgeDesc string `json:"age"`  // e.g. "threshold+1h"
-	Expect  string `json:"expect"` // removed | kept | either
+	Kind    string   `json:"kind"`   // agent | cache | staging | link-* | unrelated | odd
+	Rel     string   `json:"path"`   // relative to the data directory
+	AgeDesc string   `json:"age"`    // e.g. "threshold+1h"
+	Expect  string   `json:"expect"` // removed | kept | either
 	probe   []string // relative paths (files) whose presence is checked
 }
 
@@ -460,7 +460,7 @@ func c43() {
 	if r.Counter("artifacts_removed_as_expected") == 0 && r.Violations() == 0 {
 		r.Inconclusive("nothing was ever removed")
 	}
-	r.Finish("one case = one populated data directory (agents by atime around 30 d, caches and staging roots by mtime around 7 d, links into a canary tree, unrelated old data) given to the real Housekeep() in a child process; distinct = (artifact kind, age relative to its threshold, expected outcome)", r.Pick(20, 25))
+	r.Finish("one case = one populated data directory (agents by atime around 30 d, caches and staging roots by mtime around 7 d, links into a canary tree, unrelated old data) given to the real Housekeep() in a child process; distinct = (artifact kind, age relative to its threshold, expected outcome)", r.Pick(12, 14))
 }
 
 func minInt(a, b int) int {
